@@ -211,15 +211,18 @@ package mkvs
 // ---- tree iterator descent (C03): which children of an internal node a Seek/Next step tries ----
 
 //@ ghost var GDoNext int
+//@ ghost var GProofInc int
 
 //@ func treeIterator.doNext
-//@   props C03
+//@   props C03 C04
 //@   requires it != nil
 //@   assume-pre (node\.Key\.(AppendBit|GetBit)|mkvs\.cache\.derefNodePtr)$
 //@   precall treeIterator\)\.doNext$ :: state == visitBefore && GDoNext == old(GDoNext) && defined(newPath) && ((newBitDepth > 0 && 8 * len(key) >= int(newBitDepth) && uf("keyCompare", key, newPath) < 0) || 8 * len(key) <= int(newBitDepth)) ==> argIs(0, nd.(*node.InternalNode).LeafNode)
 //@   ensures-local err == nil && defined(newPath) && state == visitBefore && it.key == nil && 8 * len(old(key)) <= int(newBitDepth) ==> GDoNext >= old(GDoNext) + 2
+//@   ensures-local err == nil && ptr != nil && defined(pb) && pb != nil ==> GProofInc >= old(GProofInc) + 1
 //@   ensures-local err == nil && defined(newPath) && state == visitAt && it.key == nil ==> GDoNext >= old(GDoNext) + 1
 //@   ensures-local err == nil && defined(newPath) && state == visitAtLeft && it.key == nil ==> GDoNext >= old(GDoNext) + 1
+//@   note (C04) with a proof builder attached, EVERY node the step dereferences through a non-nil pointer is included in the proof - whatever its kind and however its key compares with the seek key: the leaf at which the path of an absent key ends is what proves the absence and determines the next key (seed C04_h left out leaves sorting before the key)
 //@   note GDoNext counts the direct recursive descents of one activation. Arriving at an internal node from above with a seek key that is at least as long as the node's path but sorts before it (so that the whole subtree is at or after the seek position), the FIRST descent of the step is into the node's own leaf (also for a seek key not longer than the path): the key stored AT an internal node (a key that is a prefix of other keys) is not skipped. With a seek key not longer than the path at least two children are tried (the leaf and the right subtree; whether the left one is depends on the appended bit, which the contracts of AppendBit/GetBit do not relate)
 
 //@ ghost var GRemoteSyncs int
@@ -296,3 +299,12 @@ package mkvs
 //@   ensures err == nil ==> GOvYield - old(GOvYield) == GInnerIns - old(GInnerIns)
 //@   ensures err == nil ==> (forall k string :: !inDom(o.dirty, k))
 //@   note counted: every time the overlay's iterator yields an entry (First/Next returned true), exactly one Insert into the inner tree follows before the next step - no entry of the overlay is skipped at commit, whatever its value and whatever the inner tree already holds; and every key still marked dirty afterwards (a removal) gets exactly one Remove on the inner tree. After a successful commit no key is marked dirty any more: the overlay is transparent again, so a key written below it later (through a sibling overlay, or in the tree it is copied onto) is not hidden by a stale tombstone (seed C03_f)
+
+// ---- removal (C03, and the local shape obligation of C02): a node is taken out only when at most one part remains ----
+
+//@ func tree.doRemove
+//@   props C03
+//@   requires t != nil
+//@   assume-pre (node\.Key\.(AppendBit|GetBit|BitLength|Merge)|mkvs\.cache\.derefNodePtr)$
+//@   precall mkvs\.cache\)\.removeNode$ :: defined(remainingLeft) ==> argIs(0, ptr) && ite(remainingLeaf != nil, 1, 0) + ite(remainingLeft != nil, 1, 0) + ite(remainingRight != nil, 1, 0) <= 1
+//@   note an internal node is taken out of the tree (replaced by its attached leaf or by its only child) only when at most ONE of its three parts - the attached leaf (the key that is a prefix of the subtree's keys), the left and the right subtree - is still there after the removal below it: nothing that still holds keys is dropped together with the node (seed C03_g collapsed a node with a leaf and a RIGHT subtree into the leaf). The parts are what derefNodePtr returns (see F10 for when that is wrong)
